@@ -201,7 +201,7 @@ ScalarCases == {x \in
       attr |-> a, scalar |-> s, dmode |-> d[1], dval |-> d[2],
       exp |-> IF a = "x" THEN B(ScalarWith(r, s, d), 4, ScalarWith(r, s, d) + 8, 8)
               ELSE B(4, ScalarWith(r, s, d), 12, ScalarWith(r, s, d) + 4)] :
-        rk \in {"rect", "ellipse", "line"}, r \in RefBoxes, a \in {"x", "y"}, s \in ScalarNames, d \in ScalarDeltas} :
+        rk \in RefKinds, r \in RefBoxes, a \in {"x", "y"}, s \in ScalarNames, d \in ScalarDeltas} :
     \* (only percentages that come out exact on the grid)
     x.dmode # "pct" \/ (Scalar(x.ref, x.scalar) * x.dval) % 100 = 0}
 
